@@ -10,8 +10,10 @@
   correspondence run (`acct=` entry of the state line, harness `w_pair`).
 
   Every theorem quantifies over ALL histories of ledger operations (`LOp.call i op`: account
-  `i` calls the pair with any operation and any arguments; `LOp.fund`: the test faucet) from a
-  freshly deployed pair and any initial endowment.  Helper lemmas: Lemmas/PairFlow.lean,
+  `i` calls the pair with any operation and any arguments; `LOp.xfer src dst token x`: a plain
+  ESDT transfer of LP / pool tokens between two accounts, no contract involved — see
+  Props/C01Xfer.lean; `LOp.fund`: the test faucet) from a freshly deployed pair and any initial
+  endowment.  Helper lemmas: Lemmas/PairFlow.lean,
   Lemmas/PairStepFlow.lean, Lemmas/PairLedgerInv.lean.
 -/
 import MxModel.Lemmas.PairLedgerInv
